@@ -43,6 +43,9 @@ def instances(tier, seed):
         aba += [('S5', 'pair->CF', 'pairCF->pair', 0)]
     add("aba:S6:single->F:singleF->H:unused-type-row", struct='S6', repl='single->F', repl2='singleF->H', axes=[2], other=(0.8, 0.15, 0), mode='aba',
         unused_type_row=True, cost=20)
+    # racemic big cell: proper copies near and far from the origin, the other hand far from the origin stays untouched
+    add("aba:S29:chiralflat4->F:chiralflat4F->H:far-from-origin-mirror-site", struct='S29', repl='chiralflat4->F', repl2='chiralflat4F->H', axes=[0],
+        other=(0, 0.02, 0.03), ranges={'0': (0.0, 0.12)}, mode='aba', cost=60)
     for sname, r1, r2, ax in aba:
         for a in ([ax] if tier == 'quick' or sname in ('S5',) else [0, 1, 2]):
             add(f"aba:{sname}:{r1}:{r2}:axis{a}", struct=sname, repl=r1, repl2=r2, axes=[a], other=(0.8, 0.15, 0.5), mode='aba', cost=60)
